@@ -812,10 +812,69 @@ func init() {
 					}
 					a = helperCall.Call.Args[helperParam]
 				}
+				// the cleaned location: Clean(x), or Join(…) (Join cleans its result), on every path — written in
+				// place, joined by a phi, or returned by a helper of the module (`loc = locateFrom(ctx, loc)`)
+				var cleanRoots func(v ssa.Value, depth int, seen map[ssa.Value]bool) ([]ssa.Value, bool)
+				cleanRoots = func(v ssa.Value, depth int, seen map[ssa.Value]bool) ([]ssa.Value, bool) {
+					if v == nil || depth > 4 {
+						return nil, false
+					}
+					if seen[v] {
+						return nil, true
+					}
+					seen[v] = true
+					switch x := v.(type) {
+					case *ssa.Phi:
+						var all []ssa.Value
+						for _, e := range x.Edges {
+							r, ok := cleanRoots(e, depth, seen)
+							if !ok {
+								return nil, false
+							}
+							all = append(all, r...)
+						}
+						return all, true
+					case *ssa.Call:
+						if staticCalleeIs(&x.Call, "path/filepath", "Clean") {
+							return []ssa.Value{x.Call.Args[0]}, true
+						}
+						if staticCalleeIs(&x.Call, "path/filepath", "Join") {
+							return []ssa.Value{x}, true
+						}
+						f := x.Call.StaticCallee()
+						if f == nil || len(f.Blocks) == 0 || f.Pkg == nil || !strings.HasPrefix(f.Pkg.Pkg.Path(), modPath) || f.Signature.Results().Len() != 1 {
+							return nil, false
+						}
+						for i, p := range f.Params {
+							if i < len(x.Call.Args) {
+								ssaBind[p] = append(ssaBind[p], x.Call.Args[i])
+							}
+						}
+						var all []ssa.Value
+						nret := 0
+						for _, b := range f.Blocks {
+							for _, in := range b.Instrs {
+								if r, ok := in.(*ssa.Return); ok && len(r.Results) == 1 {
+									nret++
+									rr, ok := cleanRoots(r.Results[0], depth+1, seen)
+									if !ok {
+										return nil, false
+									}
+									all = append(all, rr...)
+								}
+							}
+						}
+						return all, nret > 0
+					}
+					return nil, false
+				}
 				cl := asCall(a)
-				if cl != nil && staticCalleeIs(&cl.Call, "path/filepath", "Clean") {
-					hasParam := derivesFrom(cl.Call.Args[0], func(v ssa.Value) bool { p, ok := v.(*ssa.Parameter); return ok && p.Type().String() == "string" && p.Parent() != nil && len(p.Parent().Params) > 0 && p == p.Parent().Params[len(p.Parent().Params)-1] }, 6, map[ssa.Value]bool{})
-					hasJoin := derivesFrom(cl.Call.Args[0], func(v ssa.Value) bool {
+				if roots, ok := cleanRoots(a, 0, map[ssa.Value]bool{}); ok && len(roots) > 0 {
+					isLocParam := func(v ssa.Value) bool {
+						p, ok := v.(*ssa.Parameter)
+						return ok && p.Type().String() == "string" && p.Parent() != nil && len(p.Parent().Params) > 0 && p == p.Parent().Params[len(p.Parent().Params)-1]
+					}
+					isJoinDir := func(v ssa.Value) bool {
 						jc := asCall(v)
 						if jc == nil || !staticCalleeIs(&jc.Call, "path/filepath", "Join") {
 							return false
@@ -824,11 +883,24 @@ func init() {
 							dc := asCall(w)
 							return dc != nil && staticCalleeIs(&dc.Call, "path/filepath", "Dir")
 						}, 4, map[ssa.Value]bool{})
-					}, 6, map[ssa.Value]bool{})
+					}
+					hasParam, hasJoin := false, false
+					for _, r := range roots {
+						if derivesFrom(r, isLocParam, 6, map[ssa.Value]bool{}) {
+							hasParam = true
+						}
+						if derivesFrom(r, isJoinDir, 6, map[ssa.Value]bool{}) {
+							hasJoin = true
+						}
+					}
+					pos := locCall.Pos()
+					if cl != nil {
+						pos = cl.Pos()
+					}
 					if hasParam && hasJoin {
-						add("loc operand", Proved, "resolved = EvalSymlinks(Clean(phi[loc, Join(Dir(ctx.Location()), loc)]))", cl.Pos())
+						add("loc operand", Proved, "resolved = EvalSymlinks(Clean(phi[loc, Join(Dir(ctx.Location()), loc)]))", pos)
 					} else {
-						add("loc operand", Violated, "the location resolved is not Clean(loc | Join(Dir(loading file), loc))", cl.Pos())
+						add("loc operand", Violated, "the location resolved is not Clean(loc | Join(Dir(loading file), loc))", pos)
 					}
 				} else {
 					add("loc operand", Violated, "EvalSymlinks is not applied to the cleaned location", locCall.Pos())
